@@ -23,6 +23,7 @@ from fractions import Fraction
 import numpy as np
 from hypothesis import strategies as st
 
+from .bootstrap import HarnessError
 from .exact import GQ, garray, gzeros
 
 
@@ -43,6 +44,7 @@ def problems(
     safe_bias=False,
     min_blocks=1,
     min_K=2,
+    forms=None,
 ):
     n_blocks = draw(st.integers(min_blocks, max_blocks))
     blocks = []
@@ -91,6 +93,12 @@ def problems(
         imag_by_block = [draw(st.integers(-8, 8)) * unit for _ in blocks]
     else:
         imag_by_block = [0] * n_blocks
+    # "pinned" class: a drawn block (any position, not only the lowest one) has its first level at exactly zero, so a
+    # block with equal levels becomes an identically vanishing H_0 block (which the library represents by a scalar 0)
+    if not far and draw(st.integers(0, 4)) == 0:
+        b0 = draw(st.integers(0, n_blocks - 1))
+        offset = -energy_by_block[b0][0]
+        imag_by_block[b0] = 0
     # --- interleaving of basis states
     assign_sorted = [b for b, s in enumerate(blocks) for _ in range(s)]
     perm = draw(st.permutations(range(N))) if draw(st.booleans()) else list(range(N))
@@ -183,7 +191,14 @@ def problems(
                         if hermitian:
                             mask[y][x] = 1
             selection["masks"][str(b)] = mask
+    more = {}
+    if forms:
+        # how the problem is handed to block_diagonalize: whole matrices + subspace_indices ("indices"), nested lists of
+        # already separated blocks ("blocks"), or whole matrices + unit eigenvectors ("eigvecs"); sparse values as
+        # scipy sparse arrays or (spmatrix) as scipy sparse *matrices*, whose `*` is a matrix product
+        more = {"form": draw(st.sampled_from(forms)), "spmatrix": draw(st.booleans())}
     return {
+        **more,
         "blocks": blocks,
         "assign": assign,
         "energy": energy,
@@ -294,6 +309,24 @@ def library_input(problem):
                     A = A.astype(np.int64)
             ham[order_key(key)] = sparse.csr_array(A) if rep == "sparse" else A
     kwargs = {"subspace_indices": list(problem["assign"]), "hermitian": bool(problem["hermitian"])}
+    form = problem.get("form", "indices")
+    if rep == "sparse" and problem.get("spmatrix"):
+        ham = {o: sparse.csr_matrix(M) for o, M in ham.items()}
+    if form == "blocks":
+        st_ = states_of(problem)
+        nb = len(st_)
+        if rep == "sympy":
+            cut = lambda M, a, b: M.extract(a, b)  # noqa: E731
+        elif rep == "sparse":
+            cut = lambda M, a, b: M[a, :][:, b]  # noqa: E731
+        else:
+            cut = lambda M, a, b: M[np.ix_(a, b)]  # noqa: E731
+        ham = {o: [[cut(M, st_[i], st_[j]) for j in range(nb)] for i in range(nb)] for o, M in ham.items()}
+        kwargs.pop("subspace_indices")
+    elif form == "eigvecs":
+        kwargs.pop("subspace_indices")
+        eye = sympy.eye(N) if rep == "sympy" else np.eye(N)
+        kwargs["subspace_eigenvectors"] = [eye[:, s] for s in states_of(problem)]
     sel = problem["selection"]
     if sel["kind"] == "full":
         kwargs["fully_diagonalize"] = tuple(sel["full"])
@@ -427,3 +460,62 @@ def matrix_input(problem):
     _, kwargs = library_input(problem)
     kwargs["symbols"] = list(syms)
     return sympy.Matrix(H), kwargs
+
+
+# ------------------------------------------------------------- oblique (biorthogonal) input frames
+def frame_matrices(frame, N):
+    """R = product of shears 1 + (c/2) e_a e_b^T and its exact inverse (all entries dyadic, so floats are exact)."""
+    R, Rinv = np.eye(N), np.eye(N)
+    for a, b, c in frame["shear"]:
+        if a == b or a >= N or b >= N:
+            continue
+        S, Si = np.eye(N), np.eye(N)
+        S[a, b], Si[a, b] = c / 2, -c / 2
+        R, Rinv = R @ S, Si @ Rinv
+    return R, Rinv
+
+
+def frame_effective(problem, frame):
+    """The problem actually posed when the library is given lab-frame matrices A_k = R T_k R^-1 and the pairs (R, L).
+
+    With ``lab_hermitian`` the lab-frame perturbations are made Hermitian (A_k = M_k + M_k^dagger with M_k the drawn
+    matrix), so the block-basis terms T_k = R^-1 A_k R replace the drawn ones (re-encoded over the denominator 64 den).
+    """
+    if not frame.get("lab_hermitian"):
+        return problem
+    N = len(problem["assign"])
+    R, Rinv = frame_matrices(frame, N)
+    den = problem["den"] * 64
+    terms = {}
+    arrays = term_arrays(problem)
+    for key in problem["terms"]:
+        A = arrays[order_key(key)]
+        T = Rinv @ (A + A.conj().T) @ R * den
+        Ti = np.round(T.real).astype(int), np.round(T.imag).astype(int)
+        if np.abs(T - (Ti[0] + 1j * Ti[1])).max() != 0:
+            raise HarnessError("frame_effective: transformed term is not exactly representable")
+        terms[key] = [[[int(Ti[0][i, j]), int(Ti[1][i, j])] for j in range(N)] for i in range(N)]
+    return dict(problem, terms=terms, den=den)
+
+
+def frame_input(problem, frame):
+    """block_diagonalize arguments in the lab frame: H_k = R T_k R^-1, blocks given by (R_i, L_i) pairs, L = R^-dagger."""
+    from scipy import sparse
+
+    N = len(problem["assign"])
+    R, Rinv = frame_matrices(frame, N)
+    L = Rinv.conj().T
+    rep = problem["repr"]
+    zero = (0,) * problem["n_params"]
+    wrap = sparse.csr_array if rep == "sparse" else (lambda x: x)
+    ham = {zero: wrap(R @ np.diag(np.array(energies(problem))) @ Rinv)}
+    for o, T in term_arrays(problem).items():
+        A = R @ T @ Rinv
+        if not np.any(A.imag):
+            A = A.real.copy()
+        ham[o] = wrap(A)
+    _, kwargs = library_input(dict(problem, form="indices"))
+    kwargs.pop("subspace_indices")
+    st_ = states_of(problem)
+    kwargs["subspace_eigenvectors"] = [(R[:, s], L[:, s]) for s in st_]
+    return ham, kwargs
